@@ -15,7 +15,7 @@ pub fn property() -> Property {
     Property {
         id: "C09",
         level: "exploration",
-        rule: "The harness is the web: a generated table (scheme, host, port, request target) -> scripted response (status 200/404/every 3xx code incl. all of 300..399 in the exhaustive generator; 0, 1 or 2 Location fields) served by reactive scripted transports that answer according to the request line actually received. Webs are grown from a start URL by resolving generated Location strings (absolute incl. upper-case scheme/host, explicit default port and fragment; scheme-relative; absolute-path; relative-path with ./.. segments; query-only; fragment-only; missing; unusable: empty authority, broken IPv6 literal, blank in host; non-http schemes ftp/mailto/file/data) with the harness's own RFC 3986 section 5.2 resolver, giving chains, trees and cycles (self loops, 2- and 3-cycles). The expected walk is computed by simulating the table with that resolver; max_redirections in {0,1,2,5,7} (chains also under 2^31-1, 2^31, 2^32-2, 2^32-1), follow_redirects on/off. 'sequential-server': a real loopback origin that serves one connection at a time and lingers until the client closes (chains of 2/3/5 hops, read timeout 3 s; three attempts) - the chain still ends where the server pointed; 'non-http-location-to-a-live-port': ftp/ws/gopher/foo/httpx Locations naming a real loopback listener - error, and the listener sees no connection. Oracle: the sequence of (address dialled, request target) observed equals the expected walk hop by hop; at most max+1 requests; too-many-redirections raised exactly when the (max+1)-th redirect arrives; only 301/302/303/307/308 followed; missing/unusable Location is an error with no further request; Response::status and Response::url (fragment ignored) are those of the last hop. Every walk is performed TWICE on the same PreparedRequest: the second send() must give the reference walk from the original URL with a fresh budget. Non-trivial: at least one redirect response served; distinct = hash(table, start, max, follow).",
+        rule: "The harness is the web: a generated table (scheme, host, port, request target) -> scripted response (status 200/404/every 3xx code incl. all of 300..399 in the exhaustive generator; 0, 1 or 2 Location fields) served by reactive scripted transports that answer according to the request line actually received. Webs are grown from a start URL by resolving generated Location strings (absolute incl. upper-case scheme/host, explicit default port and fragment; scheme-relative; absolute-path; relative-path with ./.. segments; query-only; fragment-only; missing; unusable: empty authority, broken IPv6 literal, blank in host; non-http schemes ftp/mailto/file/data) with the harness's own RFC 3986 section 5.2 resolver, giving chains, trees and cycles (self loops, 2- and 3-cycles). The expected walk is computed by simulating the table with that resolver; max_redirections in {0,1,2,5,7} (chains also under 2^31-1, 2^31, 2^32-2, 2^32-1), follow_redirects on/off. 'sequential-server': a real loopback origin that serves one connection at a time and lingers until the client closes (chains of 2/3/5 hops, read timeout 3 s; three attempts) - the chain still ends where the server pointed; 'non-http-location-to-a-live-port': ftp/ws/gopher/foo/httpx Locations naming a real loopback listener - error, and the listener sees no connection. 'relative-location-via-proxy': 5 statuses x 5 relative reference forms followed through an http forward proxy - the second (absolute-form) target and Response::url() are resolved against the REQUEST's URL. Oracle: the sequence of (address dialled, request target) observed equals the expected walk hop by hop; at most max+1 requests; too-many-redirections raised exactly when the (max+1)-th redirect arrives; only 301/302/303/307/308 followed; missing/unusable Location is an error with no further request; Response::status and Response::url (fragment ignored) are those of the last hop. Every walk is performed TWICE on the same PreparedRequest: the second send() must give the reference walk from the original URL with a fresh budget. Non-trivial: at least one redirect response served; distinct = hash(table, start, max, follow).",
         assumptions: &["Locations outside the subset on which RFC 3986 and the WHATWG URL standard agree (backslashes, %2e dot segments, IDN hosts, `http:relative`, empty Location, duplicate differing Location fields, non-UTF-8 bytes) are generated for robustness but their walk is not judged"],
         min_nontrivial: |t| t.pick(3_000, 100_000),
         gens,
@@ -29,6 +29,7 @@ fn gens(tier: Tier) -> Vec<Gen> {
         Gen { name: "status-codes", count: 100 * 2, exhaustive: true, run: run_status_codes },
         Gen { name: "non-ascii-location", count: (5 * 11) as u64, exhaustive: true, run: run_non_ascii_location },
         Gen { name: "non-http-location-via-proxy", count: (5 * 4 * 2) as u64, exhaustive: true, run: run_non_http_via_proxy },
+        Gen { name: "relative-location-via-proxy", count: (5 * 5) as u64, exhaustive: true, run: run_relative_via_proxy },
         Gen { name: "sequential-server", count: 6, exhaustive: true, run: run_sequential_server },
         Gen { name: "non-http-location-to-a-live-port", count: (5 * 5) as u64, exhaustive: true, run: run_non_http_live_port },
         Gen { name: "chains", count: (9 * 10 * 2) as u64, exhaustive: true, run: run_chains },
@@ -391,6 +392,8 @@ const LOCATION_TEMPLATES: &[&str] = &[
     "../x", "./y/", "z", "z/w?k=v", "/abs/p?q=1", "/abs/p", "?only=1", "?", "#frag", "next#frag", "//b.test:8080/s", "//b.test:8080", "http://a.test/t#f", "http://a.test", "HTTPS://C.TEST:443/u/../v",
     "https://c.test/u/v?x=1&y=2", "d/./e/../f", "..", ".", "../../../up", "/", "http://b.test:8080/a/b/c/", "http://A.TEST:80/case", "g;x=1/../y", "/a/b/../../c/./d", "http://[2001:db8::1]:8081/v6", "http://192.0.2.9/v4",
     "hop?a=b#c", "//a.test/again", "https://a.test/secure", "./", "a/b/c/d/e/../../../../f",
+    // relative references that merely CONTAIN a URL (they are relative all the same)
+    "/login?next=http://b.test/home", "?return_to=https://c.test/x", "done#from=http://a.test/", "cb/http://x.test/y",
 ];
 const BAD_LOCATIONS: &[&str] = &["http://", "https://", "http://[::1", "http://[::1/x", "//", "http://a b.test/"];
 const NON_HTTP: &[&str] = &["ftp://f.test/x", "mailto:x@y.test", "file:///etc/passwd", "data:text/plain,hi", "javascript:alert(1)", "ws://a.test/x"];
@@ -483,6 +486,29 @@ fn run_non_http_via_proxy(ctx: &mut Ctx, _rng: &mut Rng, index: u64) {
     ctx.count("non_http_scheme_location", 1);
     if res.is_ok() || world.dial_count() != 1 {
         ctx.violation("non-http-location-followed", format!("a Location with a non-http scheme must end the exchange with an error and no further request; {descr}"));
+    }
+    ctx.nontrivial(descr.as_bytes());
+}
+
+/// with a forward proxy configured (plain http: every request goes to the proxy in absolute-form) a
+/// relative Location is still resolved against the URL of the REQUEST that produced it - not against
+/// the peer the connection happened to go to
+fn run_relative_via_proxy(ctx: &mut Ctx, _rng: &mut Rng, index: u64) {
+    let status = [301u16, 302, 303, 307, 308][(index % 5) as usize];
+    let (loc, want) = [("../next?x=1", "http://a.test/next?x=1"), ("/top", "http://a.test/top"), ("?q=2", "http://a.test/dir/start?q=2"), ("//third.test:81/p/q", "http://third.test:81/p/q"), ("r", "http://a.test/dir/r")][((index / 5) % 5) as usize];
+    let world = World::install(move |_, idx, _| {
+        let resp = if idx == 0 { format!("HTTP/1.1 {status} Moved\r\nLocation: {loc}\r\nContent-Length: 0\r\n\r\n").into_bytes() } else { b"HTTP/1.1 200 OK\r\nContent-Length: 2\r\n\r\nok".to_vec() };
+        crate::transport::Answer::Script(vec![crate::transport::Step::Data(resp)], crate::transport::WriteFaults::default())
+    });
+    let ps = attohttpc::ProxySettings::builder().http_proxy(url::Url::parse("http://fwd-proxy.test:3128").unwrap()).build();
+    let res = attohttpc::get("http://a.test/dir/start").proxy_settings(ps).send();
+    let second: Option<String> = if world.dial_count() >= 2 { String::from_utf8_lossy(&world.trace(1).written).split(' ').nth(1).map(|s| s.to_owned()) } else { None };
+    let reported = res.as_ref().map(|r| (r.status().as_u16(), r.url().to_string())).map_err(|e| format!("{e:?}"));
+    let descr = format!("GET http://a.test/dir/start via the forward proxy http://fwd-proxy.test:3128 -> {status} Location: {loc}: {reported:?}, {} connections, second request target {second:?}", world.dial_count());
+    ctx.count("relative_locations_followed_through_a_proxy", 1);
+    let ok = matches!(&reported, Ok((200, u)) if u.trim_end_matches('/') == want.trim_end_matches('/')) && second.as_deref().map(|t| t.trim_end_matches('/')) == Some(want.trim_end_matches('/'));
+    if !ok {
+        ctx.violation("walk-differs:relative-location-via-proxy", format!("expected the second request (absolute-form) and Response::url() to name {want}; {descr}"));
     }
     ctx.nontrivial(descr.as_bytes());
 }
